@@ -32,6 +32,8 @@ EXPLANATION = (
     "free-format and log-file parsers beyond R1/R3/R4/R5 (no column specification to compare with); "
     "numerical accuracy of parsed values; Fortran D exponents."
 )
+TECHNIQUE += '; symbolic index-map evaluation of reshaping expressions against the format layouts; taint rule for narrow counter fields'
+EXPLANATION += ' Added: (R7) the extended-XYZ Lattice, the WFX primitive-coefficient block, the Molden orbital columns and the VASP direct-coordinate product, evaluated on symbolic arrays, land on the elements the layout prescribes; (R8) no array index or loop bound in a loader derives from an integer cut from a field of three or fewer characters (such counters wrap in real files).'
 TRUSTED = ["CPython ast parser", "frozen layout specifications in spec/layouts.json (wwPDB 3.3, GROMACS manual, CTfile V2000)", "np.tril_indices enumerates the lower triangle in row-major order"]
 
 
